@@ -26,7 +26,7 @@ RULE = ("cases = call histories run(a1), ..., run(ak), k = 2..6, on one parser o
         "worker process, workers running under PYTHONHASHSEED 0, 1, 4242, 31337, random...; every run() executes in an empty scratch "
         "cwd under a file-system audit hook. Non-trivial = history with >= 2 different argument sets on a script with >= 2 "
         "entities; distinct = distinct (script, history)."
-        " Added after seeded defects: file_path / dump_path arguments without dump, parse_from_file under the file monitor, empty scripts, cross-script histories (B alters a table only A defines), a bystander object with the opposite flags constructed (never run) between the calls, scripts without any ';' whose last line starts a statement.")
+        " Added after seeded defects: file_path / dump_path arguments without dump, parse_from_file under the file monitor, empty scripts, cross-script histories (B alters a table only A defines), a bystander object with the opposite flags constructed (never run) between the calls, scripts without any ';' whose last line starts a statement, the sdp command with --no-dump on a file / a directory under the file monitor.")
 ASSUMPTIONS = ["'another process' = same machine, same interpreter build", "dump=False throughout (C19 owns dumping)"]
 MIN_EVENTS = {"run_return": 500}
 HASHSEEDS = ["0", "1", "4242", "31337", "random", "7", "99999", "random"]
@@ -165,7 +165,51 @@ def cross_script_case(ctx, case):
         ctx.violation("depends_on_earlier_calls", case, {"step": "A again after B", "diffs": [(q, short(x, 100), short(y, 100)) for q, x, y in ddiff(again, snap)[:4]] if not isinstance(again, str) else None})
 
 
+def cli_no_dump_case(ctx, case):
+    """the command line entry point asked NOT to dump (sdp <file|dir> --no-dump [-t target] [-o mode]): nothing may appear in the working
+    directory, next to the input, or at the target"""
+    import contextlib
+    import io
+    import shutil
+    import sys
+    from simple_ddl_parser import cli as CLI
+    root, cwd = tempfile.mkdtemp(prefix="vf_c14c_"), os.getcwd()
+    old_argv = list(sys.argv)
+    try:
+        src, work = os.path.join(root, "in"), os.path.join(root, "work")
+        os.makedirs(src)
+        os.makedirs(work)
+        for name, text in case["files"].items():
+            with open(os.path.join(src, name), "w") as f:
+                f.write(text)
+        target = os.path.join(src, sorted(case["files"])[0]) if case["single_file"] else src
+        argv = [target, "--no-dump"] + list(case.get("extra") or [])
+        os.chdir(work)
+        before = fs.listing(root)
+        sys.argv = ["sdp"] + argv
+        ctx.evaluated()
+        with fs.Watch() as w, contextlib.redirect_stdout(io.StringIO()):
+            try:
+                CLI.main()
+            except SystemExit:
+                pass
+            except Exception:
+                ctx.obs["cli_raises_skipped"] += 1
+        after = fs.listing(root)
+        ctx.obs["cli_no_dump_runs"] += 1
+        ctx.nontrivial_case(digest("cli|" + canon(case)))
+        if w.events or before != after:
+            ctx.violation("file_side_effect", case, {"entry_point": "sdp " + " ".join(["<in>" if a == target else a for a in argv]),
+                                                    "audit_events": w.events[:5], "new": sorted(after - before)[:5]})
+    finally:
+        os.chdir(cwd)
+        sys.argv = old_argv
+        shutil.rmtree(root, ignore_errors=True)
+
+
 def check_case(ctx, case):
+    if case.get("gen") == "cli_no_dump":
+        return cli_no_dump_case(ctx, case)
     if case.get("gen") == "cross_script":
         return cross_script_case(ctx, case)
     if case.get("gen") in ("parse_from_file", "parser_settings"):
@@ -279,6 +323,13 @@ def run_shard(ctx):
                         "CREATE TABLE unrelated (q int);\nALTER TABLE %s%s DROP COLUMN b;\n"]) % (sch, tn)
         args = {k: v for k, v in gen_args(rng).items() if k in ("output_mode", "group_by_type")}
         check_case(ctx, {"gen": "cross_script", "a": a, "b": b, "args": args})
+    # (2c) the command line entry point with --no-dump, for one file and for a directory
+    for j in range(ctx.budget(24, 400)):
+        files = {n: gen_script(rng) for n in rng.sample(["a.sql", "b.ddl", "c.hql", "notes.txt", "d.bql"], rng.randint(1, 3))}
+        if not any(n.rsplit(".", 1)[-1] in ("sql", "ddl", "hql", "bql") for n in files):
+            files["z.sql"] = gen_script(rng)
+        extra = rng.choice([[], [], ["-t", "out/json"], ["-o", rng.choice(["mysql", "hql", "bigquery"])], ["-v"], ["-t", "dumpdir", "-v"]])
+        check_case(ctx, {"gen": "cli_no_dump", "files": files, "single_file": rng.random() < 0.4, "extra": extra})
     # (3) parse_from_file must not modify its parser_settings argument
     from simple_ddl_parser import parse_from_file
     import shutil
